@@ -36,6 +36,8 @@ CONTEXTS = {
     "let-body-after-define": "(let ((j 1)) (define jj (+ j 1)) jj %s)",
 }
 
+SUM_ALL = "(define (sum-all l s) (if (null? l) s (sum-all (cdr l) (+ s ((car l))))))"      # a loop itself: no deep recursion
+
 SHAPES = {
     "self": (["(define (loop n acc) (tick n) (if (= n 0) acc CTX))"], "(loop (- n 1) (+ acc 1))", "(loop %d 0)"),
     "self-internal-define": (["(define (loop n acc) (define step 1) (define acc2 (+ acc step)) (tick n) (if (= n 0) acc CTX))"],
@@ -48,6 +50,12 @@ SHAPES = {
     # parameters: the callee of each tail call is the OTHER closure (2 + 0 per pair of iterations: the result is N for even N)
     "factory-pair": (["(define (mk d) (lambda (self other n acc) (tick n) (if (= n 0) acc CTX)))", "(define fa (mk 2))", "(define fb (mk 0))"],
                      "(other other self (- n 1) (+ acc d))", "(fa fa fb %d 0)"),
+    # every iteration hands a closure over ITS OWN n to the next one; at the end they are all called: n + (n-1) + ... + 1.
+    # (retains one closure and frame per iteration by design: the heap criterion does not apply to this shape)
+    "collect-closures": (["(define (loop n acc) (tick n) (if (= n 0) (sum-all acc 0) CTX))", SUM_ALL],
+                         "(loop (- n 1) (cons (lambda () n) acc))", "(loop %d '())"),
+    "collect-closures-mutual": (["(define (ev n acc) (tick n) (if (= n 0) (sum-all acc 0) CTXA))",
+                                 "(define (od n acc) (tick n) (if (= n 0) (sum-all acc 0) CTXB))", SUM_ALL], None, "(ev %d '())"),
     "mutual": (["(define (ev n acc) (tick n) (if (= n 0) acc CTXA))", "(define (od n acc) (tick n) (if (= n 0) acc CTXB))"],
                None, "(ev %d 0)"),
     "parameter": (["(define (loop f n acc) (tick n) (if (= n 0) acc CTX))"], "(f f (- n 1) (+ acc 1))", "(loop loop %d 0)"),
@@ -68,7 +76,10 @@ def wrap(ctxs, e):
 
 def program(shape, ctxs, n):
     defs, call, start = SHAPES[shape]
-    if shape == "mutual":
+    if shape == "collect-closures-mutual":
+        forms = [defs[0].replace("CTXA", wrap(ctxs, "(od (- n 1) (cons (lambda () n) acc))")),
+                 defs[1].replace("CTXB", wrap(ctxs, "(ev (- n 1) (cons (lambda () n) acc))"))] + defs[2:]
+    elif shape == "mutual":
         forms = [defs[0].replace("CTXA", wrap(ctxs, "(od (- n 1) (+ acc 1))")),
                  defs[1].replace("CTXB", wrap(ctxs, "(ev (- n 1) (+ acc 1))"))]
     else:
@@ -99,7 +110,7 @@ def run(rep, tier, rng):
     k = 0
     for ctxs in combos:
         for shape in SHAPES:
-            for n in (40, big):
+            for n in (40, big if not shape.startswith("collect-closures") else min(big, 400)):   # those copy a growing list per call
                 cid = "t%d" % k
                 k += 1
                 cases.append((cid, "progx", ["std+host+sum"] + program(shape, ctxs, n)))
@@ -117,13 +128,19 @@ def run(rep, tier, rng):
         nf = len(fields) - 1
         if a is None or b is None:
             rep.violation({"broken": "runner lost a case", "program": fields}, no_input=True); continue
+        if a and a[0].startswith("X not-run"):
+            continue
+        if a and a[0].startswith(("P process-died", "T timeout")):
+            rep.violation({"what": "the loop does not complete: the interpreter process died (stack overflow / abort) or hung",
+                           "shape": shape, "contexts": ctxs, "iterations": n, "program": fields, "implementation": a})
+            continue
         res = a[nf - 1]
         ax = {x[:1]: x[2:] for x in a[nf:]}
         bx = {x[:1]: x[2:] for x in b[nf:]}
         if len(rep.cov["samples"]) < 4 and len(ctxs) == 2 and n > 40:
             rep.sample({"shape": shape, "contexts": ctxs, "iterations": n, "program": fields[2:], "result": res,
                         "stack": ax.get("S"), "heap": ax.get("H"), "model_max_depth": bx.get("D")})
-        want = "V i:%d" % n
+        want = "V i:%d" % (n * (n + 1) // 2 if shape.startswith("collect-closures") else n)
         if res != want:
             rep.violation({"what": "the loop does not compute the same result as the bounded iteration (or does not complete)",
                            "shape": shape, "contexts": ctxs, "program": fields, "expected": want, "implementation": res})
@@ -142,7 +159,7 @@ def run(rep, tier, rng):
                 cycle_seen.append(1)
                 rep.known("closure-frame-cycle: a loop whose body defines an internal procedure leaks one frame per iteration "
                           "(the frame holds the closure, the closure holds the frame: an Rc cycle) - live heap %s for %s" % (ax.get("H"), fields[-1]))
-        elif int(h.get("last", 0)) - int(h.get("mid", 0)) > 4096:
+        elif int(h.get("last", 0)) - int(h.get("mid", 0)) > 4096 and not shape.startswith("collect-closures"):
             rep.violation({"what": "live heap grows with the iteration count in a loop of tail calls",
                            "shape": shape, "contexts": ctxs, "iterations": n, "program": fields, "heap": ax.get("H")})
             continue
@@ -165,7 +182,7 @@ def main(tier, seed):
     rep = C.Report(PROP, tier, seed)
     rng = random.Random(seed)
     rep.cov["rule"] = ("loops whose tail call sits in a composition of the 18 tail contexts (the 16 of the derived forms and two bodies that begin with internal definitions) (all single contexts, pairs sampled "
-                       "in quick / all pairs and sampled triples in thorough) x 11 loop shapes (two closures of one lambda handing over to each other, self, self with internal value definitions, self with an internal procedure definition, mutual, through a procedure "
+                       "in quick / all pairs and sampled triples in thorough) x 13 loop shapes (loops that hand a closure over the current iteration's variable to the next iteration - self and mutual -, two closures of one lambda handing over to each other, self, self with internal value definitions, self with an internal procedure definition, mutual, through a procedure "
                        "parameter, variadic, apply in its 2-argument, leading-argument, rest-forwarding and empty-tail forms) x 2 iteration counts; distinct = (shape, contexts, count)")
     rep.assumptions = ["real stack depth is the address of a local of the host procedure tick; live heap is a counting global allocator; "
                        "that activation depth bounds machine stack is measured here, not proved"]
